@@ -1029,7 +1029,48 @@ func Check(propID, tier string) int {
 			}
 			fmt.Printf("worker %d died (exit %d) in run %d step %d call %q; confirming in a fresh process\n", w, code, js.Run, js.Step, js.Call)
 			v, fatal := runIsolated(p, script, tmp)
-			if v == nil || !strings.HasPrefix(v.Sig, "fatal:") {
+			if v != nil && !strings.HasPrefix(v.Sig, "fatal:") {
+				// The run that the worker was busy with ends in an ordinary violation when run in
+				// a fresh process: the worker found it too and died while minimising it in-process
+				// (a simplified script made the changed code hang or blow up). The violation is
+				// real and replays; report it, minimised with one child process per candidate.
+				if old := merged.Found[v.Sig]; old != nil {
+					old.Count++
+				} else {
+					f := &Found{Sig: v.Sig, Run: js.Run, Viol: v, Count: 1}
+					if k := knownMatch(known, propID, v.Sig); k != nil {
+						f.IsKnown, f.What = true, k.What
+					}
+					orig := p.Size(script)
+					min, execs := minimiseIsolated(p, Clone(p, script), v.Sig, tmp, 120, time.Now().Add(45*time.Second))
+					mv, _ := runIsolated(p, min, tmp)
+					if mv == nil || mv.Sig != v.Sig {
+						min, mv = script, v
+					}
+					f.Viol, f.Orig, f.Min = mv, orig, p.Size(min)
+					f.Replay = writeReplay(p, tier, seed, js.Run, min, mv, 0, orig, execs, "")
+					merged.Found[v.Sig] = f
+				}
+				merged.ViolRuns++
+				mergeResult(pr.out)
+				if !merged.Found[v.Sig].IsKnown {
+					merged.Truncated = true // the verdict is decided
+					continue
+				}
+				skip[w] = append(skip[w], js.Run)
+				fatalBudget--
+				if fatalBudget <= 0 {
+					merged.Truncated = true
+					continue
+				}
+				if np, err := launch(w, pr.start, pr.gen+1); err == nil {
+					next = append(next, np)
+				} else {
+					infra = true
+				}
+				continue
+			}
+			if v == nil {
 				// The same script runs to its end in a fresh process: whatever stopped the worker
 				// (the machine frozen under it, a kill from outside) was not the code under test
 				// and is not reportable. Carry on from its checkpoint; give up (exit 2) only if
